@@ -158,9 +158,10 @@ def run(tier, replay=None):
         results = run_workers(jobs)
         byid = {r['id']: r for r in results}
         for jid, f in pinned.items():
-            if byid[jid].get('line0'):
+            if byid[jid].get((f.get('signature') or {}).get('counter', 'line0')):
                 ck.known(f['id'], f['what'])
         ck.extra['go_to_definition_results_at_line_0_excluded'] = sum(r.get('line0', 0) for r in results)
+        ck.extra['attribute_assignment_sites_reported_at_the_object_expression_excluded'] = sum(r.get('attrsite', 0) for r in results)
         cases = []
         meta = {}
         skipped = 0
